@@ -231,6 +231,7 @@ pub fn gen_knobs(r: &mut Rng, allow_onebyte: bool) -> Knobs {
         server_closes_on_unbind: r.chance(3, 4),
         lenform_extra_max: *r.pick(&[0, 0, 0, 1, 3]),
         lenform_seed: r.next_u64(),
+        write_stall: None,
     }
 }
 
@@ -620,7 +621,9 @@ pub fn gen_leak(seed: u64) -> Scenario {
                         let op = gen_single_op(&mut r, &tok);
                         let plan = gen_single_plan(&mut r, &op, &tok, &[0, 0, 1, 3], true);
                         sc.plan.by_token.insert(tok.clone(), plan);
-                        scripts[c].steps.push(Step::Op { token: tok.clone(), op, mods: Mods::default(), cancel_after_polls: None });
+                        // sometimes the caller drops the call while it is in flight; the server still answers
+                        let cancel = if r.chance(1, 6) { Some(1 + r.below(3) as u32) } else { None };
+                        scripts[c].steps.push(Step::Op { token: tok.clone(), op, mods: Mods::default(), cancel_after_polls: cancel });
                         if r.chance(1, 4) {
                             // abandon of a finished operation
                             scripts[c].steps.push(Step::Op {
@@ -738,6 +741,10 @@ pub fn gen_leak(seed: u64) -> Scenario {
                         };
                         for _ in 0..reads {
                             scripts[c].steps.push(Step::Next { slot, cancel_after_polls: None });
+                        }
+                        if r.chance(1, 4) {
+                            // the documented way to stop a search early: abandon it through the stream's own handle
+                            scripts[c].steps.push(Step::StreamAbandon { slot });
                         }
                         scripts[c].steps.push(Step::Finish { slot });
                         if r.chance(1, 4) {
@@ -908,6 +915,39 @@ pub fn gen_ids(seed: u64) -> Scenario {
         }
         sc.clients.push(cs);
     }
+    // Sometimes: a search that was read to its end but is not finished yet still owns its ID (the caller has not
+    // released it); a stray duplicate of its SearchResultDone must not free that ID. If it did, the operation
+    // that is given the ID next would lose its route when the stream is finished at last.
+    if r.chance(1, 5) {
+        let c = sc.clients.len();
+        let stok = format!("d{c}");
+        let k = r.usize(3);
+        let items = (0..k).map(|i| ItemPlan { gap_ms: 0, op: gen_item(&mut r, &format!("{stok}:i{i}")), ctrls: None }).collect();
+        let done = DonePlan { gap_ms: 0, res: gen_result(&mut r, &format!("{stok}:done")), ctrls: None };
+        let dup = Extra { after_ms: 1, op: RespOp::Result { tag: 5, res: gen_result(&mut r, &format!("{stok}:dup")) }, ctrls: None };
+        sc.plan.by_token.insert(stok.clone(), ReplyPlan::Items { items, done: Some(done), extra: vec![dup] });
+        let mut a = ClientScript::default();
+        a.steps.push(Step::Open { token: stok.clone(), slot: 0, search: simple_search(&stok, &mut r), adapter: Adapter::Direct, mods: Mods::default() });
+        for _ in 0..=k {
+            a.steps.push(Step::Next { slot: 0, cancel_after_polls: None });
+        }
+        a.steps.push(Step::Sleep { ms: 20 });
+        a.steps.push(Step::SetIdCounterBefore { token: stok.clone(), back: 1 });
+        a.steps.push(Step::Sleep { ms: 20 });
+        a.steps.push(Step::Finish { slot: 0 });
+        sc.clients.push(a);
+        let ptok = format!("p{c}");
+        let op = gen_single_op(&mut r, &ptok);
+        let mut plan = gen_single_plan(&mut r, &op, &ptok, &[0], false);
+        if let ReplyPlan::Single { after_ms, .. } = &mut plan {
+            *after_ms = 60;
+        }
+        sc.plan.by_token.insert(ptok.clone(), plan);
+        sc.clients.push(ClientScript { steps: vec![Step::Op { token: ptok, op, mods: Mods::default(), cancel_after_polls: None }], start_delay_ms: 25 });
+        // the duplicate must have arrived long before the stream is finished, or it would itself be late traffic
+        // for a recycled ID: no network delay in these runs
+        sc.knobs.net_delay_max_ms = 0;
+    }
     sc
 }
 
@@ -935,6 +975,10 @@ pub fn gen_time(seed: u64) -> Scenario {
     sc.knobs.write_quota = 0;
     sc.knobs.write_pending_pm = 0;
     sc.knobs.net_delay_max_ms = *r.pick(&[0, 0, 1, 3]);
+    if r.chance(1, 5) {
+        // the peer stops reading for a while: requests queue up in the driver, deadlines keep running
+        sc.knobs.write_stall = Some((r.usize(200), *r.pick(&[3, 20, 200, 2000])));
+    }
     let page_n = 3 + r.usize(6);
     let page_size = 1 + r.usize(3);
     let stall = if r.chance(2, 3) { Some(1 + r.usize(2)) } else { None };
@@ -960,7 +1004,9 @@ pub fn gen_time(seed: u64) -> Scenario {
             let tok = format!("c{c}k{k}");
             let t = *r.pick(&[1u64, 2, 5, 10, 50, 100, 1000, 60_000]);
             let timed = r.chance(2, 3);
-            let timeout = if timed { Some(t) } else { None };
+            // now and then "practically no timeout": the largest duration there is
+            let huge = timed && r.chance(1, 15);
+            let timeout = if huge { Some(u64::MAX) } else if timed { Some(t) } else { None };
             match r.below(11) {
                 10 => {
                     // paged search with a per-item timeout; the server may stall on a later page
@@ -983,7 +1029,7 @@ pub fn gen_time(seed: u64) -> Scenario {
                     if let ReplyPlan::Single { after_ms, .. } = &mut plan {
                         *after_ms = around(&mut r, t);
                     }
-                    if timed && r.chance(1, 5) {
+                    if timed && !huge && r.chance(1, 5) {
                         plan = ReplyPlan::Silent;
                     }
                     sc.plan.by_token.insert(tok.clone(), plan);
@@ -998,7 +1044,7 @@ pub fn gen_time(seed: u64) -> Scenario {
                         if let Some(d) = done {
                             d.gap_ms = if r.chance(1, 2) { 0 } else { around(&mut r, t) };
                         }
-                        if timed && r.chance(1, 6) {
+                        if timed && !huge && r.chance(1, 6) {
                             *done = None;
                         }
                     }
@@ -1020,7 +1066,7 @@ pub fn gen_time(seed: u64) -> Scenario {
                         if let Some(d) = done {
                             d.gap_ms = if r.chance(1, 2) { 0 } else { around(&mut r, t) };
                         }
-                        if timed && r.chance(1, 6) {
+                        if timed && !huge && r.chance(1, 6) {
                             *done = None;
                         }
                         n_items = items.len();
